@@ -6,6 +6,7 @@ import (
 	"go/types"
 	"os"
 	"slices"
+	"sort"
 	"strings"
 
 	"golang.org/x/tools/go/ssa"
@@ -43,6 +44,7 @@ type interp struct {
 	logGates    []string      // substrings of structured log messages that are scheduling points
 	funcsSeen   map[*ssa.Function]int
 	stubsSeen   map[string]int
+	emitsSeen   map[string]int
 	opaques     map[string]*opaque
 	killed      bool
 	mutexes     map[*value]*mutexState
@@ -204,6 +206,9 @@ func (in *interp) visitInstr(fr *frame, instr ssa.Instruction) continuation {
 		fr.set(instr, in.binop(instr.Op, instr.X.Type(), instr.Y.Type(), fr.get(instr.X), fr.get(instr.Y)))
 	case *ssa.Call:
 		fn, args := in.prepareCall(fr, &instr.Call)
+		if m := instr.Call.Method; m != nil && strings.HasPrefix(m.Name(), "Emit") {
+			in.recordEmit(fr, instr, args)
+		}
 		fr.set(instr, in.call(fr, instr.Pos(), fn, args))
 	case *ssa.ChangeInterface:
 		fr.set(instr, fr.get(instr.X))
@@ -363,6 +368,47 @@ func (in *interp) visitInstr(fr *frame, instr ssa.Instruction) continuation {
 		panic(fmt.Sprintf("unexpected instruction: %T", instr))
 	}
 	return kNext
+}
+
+// isEmit reports whether the invoked interface method is one of the metric emission methods of
+// kubebrain's metrics.Metrics.
+func isEmit(m *types.Func) bool {
+	switch m.Name() {
+	case "EmitCounter", "EmitGauge", "EmitHistogram":
+		return m.Pkg() != nil && strings.HasSuffix(m.Pkg().Path(), "/pkg/metrics")
+	}
+	return false
+}
+
+// recordEmit notes a metric emission executed by the code under test: call site, kind, metric
+// name and the *names* of its labels (the C20 check compares them over all sites).
+func (in *interp) recordEmit(fr *frame, instr *ssa.Call, args []value) {
+	if !isEmit(instr.Call.Method) || len(args) < 4 || strings.Contains(fr.fn.Pkg.Pkg.Path(), "/pkg/zz") {
+		return
+	}
+	name := "<symbolic>"
+	if sv, ok := args[1].(string); ok {
+		name = sv
+	}
+	var labels []string
+	if tags, ok := args[3].([]value); ok {
+		for _, t := range tags {
+			st, ok := t.(structure)
+			if !ok || len(st) == 0 {
+				continue
+			}
+			if ln, ok := st[0].(string); ok {
+				labels = append(labels, ln)
+			} else {
+				labels = append(labels, "<symbolic>")
+			}
+		}
+	}
+	sort.Strings(labels)
+	if in.emitsSeen == nil {
+		in.emitsSeen = map[string]int{}
+	}
+	in.emitsSeen[in.siteOf(fr, instr.Pos())+"|"+instr.Call.Method.Name()+"|"+name+"|"+strings.Join(labels, ",")]++
 }
 
 func (in *interp) siteOf(fr *frame, pos token.Pos) string {
